@@ -1,22 +1,58 @@
 (* C13 -- TwoLevel: periodic disk checkpoints, binomially optimal recomputation
    Property theorems only: each proof is one application of a lemma proved in Proofs/, followed by Print Assumptions. *)
 From Coq Require Import ZArith List Bool.
-From CS Require TLInv.
+From CS Require TLInv TLSweep Online.
 From CS Require Import Actions NAdvance Multistage Exec Sched RunFacts Projections BasicInv MultistageRun AllocTotal TLBridge MixBridge.
 Import ListNotations.
 Open Scope Z_scope.
 
-(* unlimited adjoint calculations, each executable: the run theorems hold for every number k of further requests *)
+(* FIRST CLAUSE, extracted model, every period >= 1, every binomial_snapshots, both storages, both trajectories, every number j of requests before finalisation: the observations are exactly Forward(i P, (i+1) P, write_ics, DISK) with n = (i+1) P, r = 0, max_n unknown, not exhausted, for i = 0 .. j-1 *)
+Module M_C13_sweep_pattern.
+Import TLSweep.
+Theorem C13_sweep_pattern :
+  forall (P bs : Z) (bst : Actions.storage) (tr : NAdvance.traj) (st : Online.st) (j : nat),
+         Online.construct (Online.KTwo P bs bst tr) = Actions.Ok st ->
+         Online.run_ops st (repeat Online.Next j) = map (sweep_obs P) (seq 0 j).
+Proof. exact (@TLSweep.twolevel_sweep). Qed.
+Print Assumptions C13_sweep_pattern.
+End M_C13_sweep_pattern.
+
 (* the whole TwoLevel run on the extracted model *)
 Theorem C13_twolevel_run : forall (N P bs : Z) (bst : storage) (tj : traj), 1 <= N -> 1 <= P -> 0 <= bs -> bst = RAM \/ bst = DISK -> forall k : nat,
   exists o0 m ls, run_case (PTwo P bs bst tj) (ptl N P bs bst) (repeat Next (Z.to_nat (TLBridge.Q N P)) ++ [Fin N] ++ repeat Next (S k)) = Ok (o0, m, ls) /\ mon_ok m /\ no_raise ls.
 Proof. exact twolevel_run. Qed.
 Print Assumptions C13_twolevel_run.
 
-(* PARTIAL: per-block forward total on the TwoLevel machine of TLInv.v (= T (L, b+1) with T the work of the binomial recursion); not yet restated on the extracted model *)
-Module M_C13_block_total_partial.
+(* SECOND CLAUSE, totals on the extracted model: whenever the generator stands between adjoint passes (head of its `while True`: after EndForward / each EndReverse) the reference executor has carried out N + passes * W forward steps, W = TLBridge.W = the sum over the period blocks of T(block length, binomial_snapshots + 1) with T = Inst.TC, the work of the binomial recursion (= the Griewank-Walther optimum by C05_chain); every N (last block partial or full), both storages, both trajectories, all passes *)
+Module M_C13_pass_totals.
+Import TLBridge.
+Theorem C13_pass_totals :
+  forall (N P bs : Z) (bst : Actions.storage) (tj : NAdvance.traj),
+         1 <= N ->
+         1 <= P ->
+         0 <= bs ->
+         bst = Actions.RAM \/ bst = Actions.DISK ->
+         forall k : nat,
+         let
+         '(s2, m, ls) :=
+          Sched.run_ops (ptl N P bs bst) (fsched P bs bst tj Online.PStart 0 None false) Sched.mon0
+            (repeat Sched.Next (Z.to_nat (Q N P)) ++ [Sched.Fin N] ++ repeat Sched.Next (S k)) in
+          RunFacts.mon_ok m /\
+          RunFacts.no_raise ls /\
+          (forall o : Online.st,
+           Sched.ob s2 = Sched.OOnline o ->
+           Online.pcv o = Online.PTOuter ->
+           Exec.fwd_total (Exec.cnt (Sched.mx m)) =
+           N + Exec.passes (Sched.mx m) * W N P bs tj +
+           (W N P bs tj - WS N P bs tj (N - Online.r_ (Online.b o)))).
+Proof. exact (@TLBridge.twolevel_totals). Qed.
+Print Assumptions C13_pass_totals.
+End M_C13_pass_totals.
+
+(* per block, on the TwoLevel machine of TLInv.v that the extracted machine is proved to follow (TLBridge.resume_agrees): when a block has been reversed completely, exactly T(L, b+1) forward steps were spent on it *)
+Module M_C13_block_total.
 Import TLInv.
-Theorem C13_block_total_partial :
+Theorem C13_block_total :
   forall adv : Z -> Z -> Z,
          (forall m k : Z, 2 <= m -> 1 <= k -> 1 <= adv m k <= m - 1) ->
          (forall m : Z, 2 <= m -> adv m 1 = m - 1) ->
@@ -32,6 +68,25 @@ Theorem C13_block_total_partial :
          Inv T N P bs d0 s x ->
          pcv s = PTBlock n0s -> r_ s = N - n0s -> done x = d0 + T (pend N P n0s - n0s) (S_ bs).
 Proof. exact (@TLInv.block_total). Qed.
-Print Assumptions C13_block_total_partial.
-End M_C13_block_total_partial.
+Print Assumptions C13_block_total.
+End M_C13_block_total.
+
+(* PARTIAL: that extra checkpoints go only to the binomial storage is contained in the executor bridge (every accepted checkpointing Forward inside a block names bst) and in the budgets of the run theorem (0 units in the other storage), but is not stated as a separate theorem *)
+Module M_C13_storage_of_extra_checkpoints_partial.
+Import TLBridge.
+Theorem C13_storage_of_extra_checkpoints_partial :
+  forall (N P bs : Z) (bst : Actions.storage),
+         1 <= N ->
+         1 <= P ->
+         bst = Actions.RAM \/ bst = Actions.DISK ->
+         forall (x : TLInv.xst) (X : Exec.xstate) (a : Actions.action) (x' : TLInv.xst),
+         Rx N P bst x X ->
+         NNx x ->
+         rev_clears a ->
+         TLInv.exec N P bs bst x a = Some x' ->
+         Exec.check (ptl N P bs bst) true false X a = None /\
+         Rx N P bst x' (Exec.apply (ptl N P bs bst) false X a) /\ NNx x'.
+Proof. exact (@TLBridge.tl_exec_agrees). Qed.
+Print Assumptions C13_storage_of_extra_checkpoints_partial.
+End M_C13_storage_of_extra_checkpoints_partial.
 
